@@ -318,6 +318,25 @@ harnesses! {
     fn c02_t_hash_kmer_dna_k64_u128 [131] { hash_kmer!(Dna, 64, u128, 192, 6) }
     fn c02_t_hash_kmer_dna_k32 [67] { hash_kmer!(Dna, 32, usize, 96, 3) }
 
+    fn c02_q_eq_kmer_vs_array_and_seq [10] {
+        // Kmer == SeqArray / &SeqArray / Seq
+        let v = any_usize();
+        assume(v < 256);
+        let k = kmer::<Dna, 4>(v);
+        let w = any_words::<1>();
+        let a = arr::<Dna, 4, 1>(w);
+        let same = (w[0] & 0xff) == v;
+        reach!(same, "equal");
+        assert!((k == a) == same, "C02.eq.kmer_vs_array");
+        assert!((k == &a) == same, "C02.eq.kmer_vs_ref_array");
+        let src = arr::<Dna, 32, 1>(w);
+        let own = owned_cap(&src, 0, 4, 4);
+        assert!((k == own) == same, "C02.eq.kmer_vs_seq");
+        let shorter = owned_cap(&src, 0, 3, 3);
+        assert!(!(k == shorter), "C02.eq.kmer_vs_shorter_seq");
+        core::mem::forget(own);
+        core::mem::forget(shorter);
+    }
     fn c02_q_eq_kmer_dna_k4 [10] { eq_kmer!(Dna, 4, usize, 64, 2) }
     fn c02_q_eq_kmer_dna_k32 [10] { eq_kmer!(Dna, 32, usize, 96, 3) }
     fn c02_q_eq_kmer_amino_k10 [10] { eq_kmer!(Amino, 10, usize, 32, 3) }
